@@ -11,6 +11,10 @@ impl Repr {
         if let Some(slash) = src.find('/') {
             let num = IBig::from_str_radix(&src[..slash], radix)?;
             let den = IBig::from_str_radix(&src[slash + 1..], radix)?;
+            if den.is_zero() {
+                // a fraction cannot have a zero denominator
+                return Err(ParseError::InvalidDigit);
+            }
             let (sign, den) = den.into_parts();
             Ok(Repr {
                 numerator: num * sign,
@@ -30,6 +34,10 @@ impl Repr {
             // first parse the numerator part
             let (num, num_radix) = IBig::from_str_with_radix_prefix(&src[..slash])?;
             let (den, den_radix) = IBig::from_str_with_radix_default(&src[slash + 1..], num_radix)?;
+            if den.is_zero() {
+                // a fraction cannot have a zero denominator
+                return Err(ParseError::InvalidDigit);
+            }
             let (den_sign, den) = den.into_parts();
 
             if num_radix != den_radix {
